@@ -9,10 +9,19 @@ Operation DSL (JSON lists; `H` hint expression, `O` object expression, see `Inte
   world operations (replayed in the fresh interpreter, they create what a query talks about):
     ["defclass", name, beartyped]      class `name` (re)defined in the synthetic module `c14mod` (with @beartype or not)
     ["deffunc", fname, hintsrc, conf]  `@beartype def fname(x: <hintsrc>) -> int` defined in c14mod (decoration only)
+    ["defself", cname, hintsrc, conf]  `@beartype class cname` in c14mod with `def m(self, x: <hintsrc>) -> int` and
+                                       `def r(self, x) -> <hintsrc>` (hintsrc mentions `Self`: its meaning is the class being
+                                       decorated); decoration compiles both checks, so it is also a query ("decorated" | exc)
+    ["defscope", sname, kind]          a caller scope with its OWN class `Node`: kind "func" = a function of c14mod whose
+                                       local class is `Node`, kind "module" = a module `c14s_<sname>` whose global class is
+                                       `Node`; asks nothing of beartype. `["inst", sname, -1]` is an instance of that Node.
   queries (each yields an answer ["ok", value] | ["exc", class name]):
     ["bear", api, H, O, conf]          api: is_bearable | die_if_unbearable | decor | th_is_bearable
     ["sub", H, H] ["thsub", H, H] ["theq", H, H]
     ["call", fname, O]                 call a function decorated earlier by a deffunc
+    ["mcall", cname, "m"|"r", O]       `cname().m(O)` / `cname().r(O)` of a class defined by a defself
+    ["sbear", sname, api, H, O, conf]  api: is_bearable | die_if_unbearable | decor, called lexically INSIDE the scope
+                                       `sname` (relative forward references of H, e.g. tuple['Node', int], resolve there)
   cache / lifetime operations (history only; a fresh interpreter never sees them):
     ["clear"]  ["gc"]
 Nothing of beartype is called by the instrumentation (it only reads the dictionaries), so observing does not
@@ -30,8 +39,8 @@ import weakref
 
 MOD = 'c14mod'
 ITEM_TIMEOUT = 300          # seconds per forked item (a history is a few dozen queries)
-WORLD_OPS = ('defclass', 'deffunc')
-QUERY_OPS = ('bear', 'sub', 'thsub', 'theq', 'call')
+WORLD_OPS = ('defclass', 'deffunc', 'defself', 'defscope')
+QUERY_OPS = ('bear', 'sub', 'thsub', 'theq', 'call', 'mcall', 'sbear')
 
 
 def _hashable(x) -> bool:
@@ -40,6 +49,31 @@ def _hashable(x) -> bool:
         return True
     except TypeError:
         return False
+
+
+# A caller scope. The generator keeps ONE frame alive: every query sent to it is asked by a call written lexically in
+# that frame, so beartype resolves the relative forward references of the hint against this scope (the local class
+# `Node` for kind "func"; the module global `Node` for kind "module", where `__c14_local_node` is false).
+SCOPE_SRC = '''
+{global_node}
+def {fn}():
+{local_node}
+    __a = Node
+    while True:
+        __k, __h, __o, __cf = yield __a
+        try:
+            if __k == 'is_bearable':
+                __a = ('ok', is_bearable(__o, __h, conf=__cf))
+            elif __k == 'die_if_unbearable':
+                __a = ('ok', die_if_unbearable(__o, __h, conf=__cf))
+            else:
+                @beartype(conf=__cf)
+                def __g(x: __h) -> int:
+                    return 0
+                __a = ('ok', __g(__o))
+        except Exception as __e:
+            __a = ('exc', __e)
+'''
 
 
 class Interp:
@@ -53,12 +87,16 @@ class Interp:
         self.m = types.ModuleType(MOD)
         sys.modules[MOD] = self.m
         self.m.__dict__['beartype'] = beartype.beartype
+        self.m.__dict__.update(Self=typing.Self, Optional=typing.Optional, typing=typing, is_bearable=beartype.door.is_bearable,
+                               die_if_unbearable=beartype.door.die_if_unbearable)
+        self.scopes: dict[str, object] = {}           # sname -> primed generator (the live frame of the scope)
         self.gens: dict[str, list] = {}
         self.observe = observe
         self.nprobe = 0
         # measured facts about this history (non-vacuity)
         self.stats = {'id_reuse': 0, 'id_stale_hit': 0, 'repr_collision': 0, 'checker_hit': 0, 'wrapper_hit': 0,
-                      'id_hit': 0, 'clear_by_redefinition': 0}
+                      'id_hit': 0, 'clear_by_redefinition': 0, 'ctx_switch': 0}
+        self.ctx_seen: dict[str, set] = {}            # context-relative hint -> contexts (classes / scopes) it was asked from
         self.ids_seen: dict[int, tuple] = {}          # id(wrapper) -> (weakref, fingerprint)
         self.id_shadow: dict[tuple, tuple] = {}       # (table, ida, idb) -> `==` classes of the two hints at insertion
         self.repr_seen: dict[str, set] = {}           # repr(hint) -> class-generation fingerprints
@@ -81,7 +119,7 @@ class Interp:
         t = self.typing
         if isinstance(e, str):
             return {'int': int, 'str': str, 'bool': bool, 'float': float, 'bytes': bytes, 'object': object,
-                    'None': None, 'Any': t.Any, 'complex': complex}[e]
+                    'None': None, 'Any': t.Any, 'complex': complex, 'Self': t.Self}[e]
         k = e[0]
         if k == 'cls':
             return self.cls(e[1], e[2])
@@ -189,6 +227,69 @@ class Interp:
         ns['__c14_conf'] = self.conf(conf)
         src = f'@beartype(conf=__c14_conf)\ndef {fname}(x: {hintsrc}) -> int:\n    return 0\n'
         exec(compile(src, f'<{MOD}>', 'exec'), ns)
+
+    def note_ctx(self, hintkey, ctx):
+        """an equal context-relative hint asked from a context other than the ones before: what C14 must survive"""
+        seen = self.ctx_seen.setdefault(hintkey, set())
+        if seen and ctx not in seen:
+            self.stats['ctx_switch'] += 1
+        seen.add(ctx)
+
+    def defself(self, cname, hintsrc, conf):
+        """`@beartype class cname` whose two methods are annotated by `hintsrc` (which mentions `Self`). Observed:
+        whether `_HINT_CONF_TO_CHECK_EXPR` holds an expression for that hint before / after the decoration."""
+        ns = self.m.__dict__
+        ns['__c14_conf'] = self.conf(conf)
+        ob = None
+        if 'Self' in hintsrc:
+            self.note_ctx(f'self:{hintsrc}:{conf}', cname)
+
+        def expr_cached():
+            from beartype._check.code.codemain import _HINT_CONF_TO_CHECK_EXPR
+            h = eval(hintsrc, ns)
+            for k in list(_HINT_CONF_TO_CHECK_EXPR):
+                try:
+                    if k[1] is ns['__c14_conf'] and (k[0].hint is h or k[0].hint == h):
+                        return True
+                except Exception:                     # noqa: BLE001
+                    pass
+            return False
+        if self.observe:
+            from beartype._decor._type.decortype import _BEARTYPED_MODULE_TO_TYPE_NAME
+            cleared = cname in _BEARTYPED_MODULE_TO_TYPE_NAME.get(MOD, ())
+            if cleared:
+                self.stats['clear_by_redefinition'] += 1
+            ob = {'kind': 'defself', 'cleared': cleared, 'expr_before': expr_cached() and not cleared}
+        src = (f'@beartype(conf=__c14_conf)\nclass {cname}:\n    def m(self, x: {hintsrc}) -> int:\n        return 0\n'
+               f'    def r(self, x) -> {hintsrc}:\n        return x\n')
+        try:
+            exec(compile(src, f'<{MOD}>', 'exec'), ns)
+            a = ['ok', 'decorated']
+            self.gens.setdefault(cname, []).append(ns[cname])
+        except Exception as ex:                       # noqa: BLE001 - decoration-time failure is an answer
+            a = ['exc', type(ex).__name__]
+        if self.observe:
+            ob['expr_after'] = expr_cached()
+            ob['decorated'] = a[0] == 'ok'
+        return a, ob
+
+    def defscope(self, sname, kind):
+        fn = f'__c14_scope_{sname}'
+        if kind == 'module':
+            mod = types.ModuleType(f'c14s_{sname}')
+            sys.modules[mod.__name__] = mod
+            mod.__dict__.update(beartype=self.bt.beartype, is_bearable=self.door.is_bearable,
+                                die_if_unbearable=self.door.die_if_unbearable)
+            ns, label = mod.__dict__, f'<c14s_{sname}>'
+            src = SCOPE_SRC.format(fn=fn, global_node='class Node:\n    pass\n', local_node='    pass')
+        else:
+            ns, label = self.m.__dict__, f'<{MOD}>'
+            src = SCOPE_SRC.format(fn=fn, global_node='', local_node='    class Node:\n        pass')
+        exec(compile(src, label, 'exec'), ns)
+        g = ns[fn]()
+        node = next(g)
+        self.scopes[sname] = g
+        self.gens.setdefault(sname, []).append(node)
 
     # -- queries ----------------------------------------------------------------------------------------
     def answer(self, thunk):
@@ -362,6 +463,32 @@ class Interp:
         o = self.obj(oe)
         return self.answer(lambda: self.m.__dict__[fname](o)), None
 
+    def q_mcall(self, cname, meth, oe):
+        o = self.obj(oe)
+        return self.answer(lambda: getattr(self.gens[cname][-1](), meth)(o)), None
+
+    def q_sbear(self, sname, api, he, oe, conf):
+        """A query asked from inside the scope `sname` (see SCOPE_SRC)."""
+        cf = self.conf(conf)
+        o = self.obj(oe)
+        h = self.hint(he)
+        obs = None
+        if "'ref'" in repr(he):
+            self.note_ctx(f'ref:{self.fp(he)}:{conf}', sname)
+        if self.observe and api != 'decor':
+            obs = self.observe_bear_before(api, h, he, cf)
+            obs['scope'] = sname
+
+        def thunk():
+            kind, v = self.scopes[sname].send((api, h, o, cf))
+            if kind == 'exc':
+                raise v
+            return v
+        a = self.answer(thunk)
+        if obs is not None:
+            self.observe_bear_after(obs, api, h, cf)
+        return a, obs
+
     # -- driver ----------------------------------------------------------------------------------------
     def run(self, ops):
         answers, obs = [], []
@@ -382,6 +509,14 @@ class Interp:
                 a, ob = self.q_th(k, op[1], op[2])
             elif k == 'call':
                 a, ob = self.q_call(op[1], op[2])
+            elif k == 'defself':
+                a, ob = self.defself(op[1], op[2], op[3] if len(op) > 3 else 0)
+            elif k == 'defscope':
+                self.defscope(op[1], op[2])
+            elif k == 'mcall':
+                a, ob = self.q_mcall(op[1], op[2], op[3])
+            elif k == 'sbear':
+                a, ob = self.q_sbear(op[1], op[2], op[3], op[4], op[5] if len(op) > 5 else 0)
             elif k == 'clear':
                 from beartype._util.cache.utilcacheclear import clear_caches
                 clear_caches()
